@@ -231,42 +231,6 @@ func c02Directives(kind, data string, mode int) (msg string, applicable bool) {
 	return "", true
 }
 
-// c02Shape returns "K7" for inputs of the recorded finding K7: a token that contains a
-// newline (a quoted string with backslash-newline), which lets a line end on a later line
-// than it starts on, so that assignComments hands its suffix comment to an earlier node.
-func c02Shape(data string) string {
-	fs, err := modfile.VerifParse("go.mod", []byte(data))
-	if err != nil {
-		return ""
-	}
-	multi := func(toks []string) bool {
-		for _, t := range toks {
-			if strings.Contains(t, "\n") {
-				return true
-			}
-		}
-		return false
-	}
-	for _, s := range fs.Stmt {
-		switch x := s.(type) {
-		case *modfile.Line:
-			if multi(x.Token) {
-				return "K7"
-			}
-		case *modfile.LineBlock:
-			if multi(x.Token) {
-				return "K7"
-			}
-			for _, l := range x.Line {
-				if multi(l.Token) {
-					return "K7"
-				}
-			}
-		}
-	}
-	return ""
-}
-
 type c02In struct {
 	Op   string `json:"op"`
 	Data string `json:"data_hex"`
@@ -330,12 +294,8 @@ func runC02(c *hx.Ctx) {
 			c.Count("format-fixpoint")
 		}
 		in := c02In{Op: "roundtrip", Data: hex.EncodeToString([]byte(data))}
-		shape := ""
-		if reparse != "" || idem != "" {
-			shape = c02Shape(data)
-		}
-		c.Check("format-reparse-same-events", reparse == "", shape, in, reparse)
-		c.Check("format-idempotent", idem == "", shape, in, idem)
+		c.Check("format-reparse-same-events", reparse == "", "", in, reparse)
+		c.Check("format-idempotent", idem == "", "", in, idem)
 		if accepted%997 == 0 {
 			c.Sample(fmt.Sprintf("%s: %q => %q", label, data, out))
 		}
